@@ -5,6 +5,7 @@
 -/
 import Rpki.Props.C03
 import Rpki.Model.Cert
+import Rpki.Proofs.CertDerLemmas
 namespace Rpki.Props.C01
 open Rpki.Chain Rpki.Cert
 
@@ -366,5 +367,95 @@ example : validateTa exTa 15 = some ⟨[1], [⟨10, 20⟩], [], [⟨1, 5⟩]⟩ 
 example : validateCa exCa ⟨[1], [⟨10, 20⟩], [], [⟨1, 5⟩]⟩ 15 = some ⟨[2], [⟨12, 15⟩], [], [⟨1, 5⟩]⟩ := by
   simp [validateCa, inspectCa, inspectBasics, inspectCaBasics, inspectIssued, exCa, exTa, verifyIssuedCert,
     validityOk, X509.verifyAt, issuerClaim, verifyResources, verifyIssued, isEncompassed, isEncompassedAux]
+
+/-! ### the same on octets
+
+The theorems above speak about the record of facts a decoder extracted.  `Model/CertDer.lean` is that
+decoder (tied to `Cert::decode` by the `certd` operations and by every C01 case, whose model verdict is
+computed from the octets): for *every* octet string the statements hold with the facts it yields — the
+hypothesis `ClaimsCanon` is discharged, the key identifier is the SHA-1 of the key bits read from the
+octets, and the only input left outside is the verdict of the signature primitive. -/
+section Octets
+open Rpki.CertDer Rpki.Der
+
+theorem claimsCanon_of_octets (b : List Nat) (d : Decoded) (hb : AllBytes b) (h : decodeCert b = some d)
+    (router strict sigOk : Bool) : ClaimsCanon (toFacts d router strict sigOk) := by
+  obtain ⟨h4, h6, ha⟩ := decodeCert_canon b d hb h
+  refine ⟨?_, ?_, ?_⟩
+  · intro c hc
+    have := shiftV4_canon d.v4 h4
+    show Canon (2 ^ 32 - 1) c
+    have e : shiftV4 d.v4 = .blocks c := hc
+    rw [e] at this; exact this
+  · intro c hc
+    have e : d.v6 = .blocks c := hc
+    rw [e] at h6; exact h6
+  · intro c hc
+    have e : d.asn = .blocks c := hc
+    rw [e] at ha; exact ha
+
+/-- **CA / EE certificates, from the octets.** If the octets decode and validation under a (canonical)
+issuer succeeds, then the signature verdict was positive, the time is inside the window read from the
+octets, the AKI read from them is the issuer's SKI, the SKI is the SHA-1 of the key bits, and the validated
+resources are canonical and contained in the issuer's. -/
+theorem accepted_octets (b : List Nat) (d : Decoded) (hb : AllBytes b) (hd : decodeCert b = some d)
+    (strict sigOk : Bool) (i r : RC) (now : Int) (hi : RC.Canon i)
+    (h : validateCa (toFacts d false strict sigOk) i now = some r ∨
+         validateEe (toFacts d false strict sigOk) i now = some r) :
+    sigOk = true ∧ d.validity.nb ≤ now ∧ now ≤ d.validity.na ∧ d.aki = some i.ski ∧
+    d.ski = Sha.sha1N d.keyBits ∧ RC.Canon r ∧ RC.Sub r i := by
+  have hc := claimsCanon_of_octets b d hb hd false strict sigOk
+  have hs := validated_subset _ i r now hc hi h
+  rcases h with h | h
+  · obtain ⟨a1, a2, a3, a4, a5⟩ := validateCa_sound _ i now r h
+    exact ⟨a1, a2, a3, a4, a5, hs.1, hs.2⟩
+  · obtain ⟨a1, a2, a3, a4, a5⟩ := validateEe_sound _ i now r h
+    exact ⟨a1, a2, a3, a4, a5, hs.1, hs.2⟩
+
+/-- **Router certificates, from the octets.** -/
+theorem accepted_octets_router (b : List Nat) (d : Decoded) (hd : decodeCert b = some d)
+    (strict sigOk : Bool) (i : RC) (now : Int)
+    (h : validateRouter (toFacts d true strict sigOk) i now = true) :
+    sigOk = true ∧ d.validity.nb ≤ now ∧ now ≤ d.validity.na ∧ d.aki = some i.ski ∧
+    d.ski = Sha.sha1N d.keyBits ∧ d.keyAlg = .ecP256 := by
+  obtain ⟨a1, a2, a3, a4, a5, _⟩ := validateRouter_sound _ i now h
+  refine ⟨a1, a2, a3, a4, a5, ?_⟩
+  unfold validateRouter at h
+  by_cases h0 : inspectRouter (toFacts d true strict sigOk) = true
+  · unfold inspectRouter at h0
+    simp only [Bool.and_eq_true] at h0
+    have hk := h0.1.1.1.1.1.1.1.1.1.1.2
+    have : (toFacts d true strict sigOk).keyAlgOk = (d.keyAlg == .ecP256) := rfl
+    rw [this] at hk
+    exact eq_of_beq hk
+  · simp [h0] at h
+
+/-- **Trust anchors, from the octets.** -/
+theorem accepted_octets_ta (b : List Nat) (d : Decoded) (hb : AllBytes b) (hd : decodeCert b = some d)
+    (strict sigOk : Bool) (r : RC) (now : Int)
+    (h : validateTa (toFacts d false strict sigOk) now = some r) :
+    sigOk = true ∧ d.validity.nb ≤ now ∧ now ≤ d.validity.na ∧ d.ski = Sha.sha1N d.keyBits ∧
+    d.v4 ≠ .inherit ∧ d.v6 ≠ .inherit ∧ d.asn ≠ .inherit ∧ RC.Canon r := by
+  have hc := claimsCanon_of_octets b d hb hd false strict sigOk
+  obtain ⟨a1, a2, a3, a4, a5, a6, a7, _⟩ := validateTa_sound _ now r h
+  refine ⟨a1, a2, a3, a4, ?_, a6, a7, validateTa_canon _ now r hc h⟩
+  intro e
+  apply a5
+  show shiftV4 d.v4 = .inherit
+  rw [e]; rfl
+
+/-- **Any single non-conforming input rejects, from the octets**: a negative signature verdict, a time
+outside the window read from the octets, an AKI other than the issuer's SKI, an SKI other than the SHA-1 of
+the key bits. -/
+theorem tampered_octets_rejected (b : List Nat) (d : Decoded) (_hd : decodeCert b = some d)
+    (router strict sigOk : Bool) (i : RC) (now : Int)
+    (hbad : sigOk = false ∨ now < d.validity.nb ∨ d.validity.na < now ∨ d.aki ≠ some i.ski ∨
+            d.ski ≠ Sha.sha1N d.keyBits) :
+    validateCa (toFacts d router strict sigOk) i now = none ∧
+    validateEe (toFacts d router strict sigOk) i now = none ∧
+    validateRouter (toFacts d router strict sigOk) i now = false :=
+  single_fault_rejects _ i now hbad
+
+end Octets
 
 end Rpki.Props.C01
